@@ -30,6 +30,72 @@ def build_cases(ctx):
     return rc.corpus_cases('C11') + rc.corpus_cases('C12') + rc.corpus_cases('C13') + cases + rc.ood_cases(rng)
 
 
+BIN_TREES = {
+    'interfaces-only': {'I.sol': 'pragma solidity 0.8.10;\ninterface I { function f() external; }\n', 'sub/J.sol': 'pragma solidity 0.8.10;\ninterface J { function g() external; }\n'},
+    'pragma-only': {'P.sol': 'pragma solidity ^0.8.0;\n'},
+    'floating-interface': {'I.sol': 'pragma solidity ^0.8.0;\ninterface I { function f() external; }\n'},
+    'qa-only': {'Q.sol': 'pragma solidity 0.8.10;\nabstract contract Q { function _f() public virtual; }\n'},
+    'same-names': {'src/Token.sol': 'pragma solidity ^0.8.0;\ncontract T { uint x; function f() public { x = x + 1; } }\n',
+                   'lib/Token.sol': 'pragma solidity ^0.8.0;\ncontract T { uint y; function g() public { y = y + 2; } }\n',
+                   'lib/vendor/Token.sol': 'pragma solidity ^0.8.0;\ncontract T { uint x; function f() public { x = x + 1; } }\n'},
+    'mixed': {'A.sol': 'pragma solidity ^0.8.0;\ncontract A { uint x; address o; function k() external { selfdestruct(payable(o)); } function f(uint a) public { x = a / 2 * 3; } }\n',
+              'I.sol': 'pragma solidity 0.8.10;\ninterface I { function f() external; }\n'},
+    'nothing': {'N.sol': 'pragma solidity 0.8.10;\ninterface N { }\n', 'README.md': 'not solidity'},
+}
+
+
+def report_blocks(text):
+    """-> [(header line, announced total or None, number of entry lines)] for every category block of a report"""
+    import re
+    blocks = []
+    cur = None
+    for line in text.split('\n'):
+        m = re.match(r'^# .*', line)
+        if m and not line.startswith('##'):
+            t = re.search(r'\(Total \w+ (-?\d+)\)', line)
+            cur = [line, int(t.group(1)) if t else None, 0]
+            blocks.append(cur)
+        elif cur is not None and re.match(r'^- .*:-?\d+$', line):
+            cur[2] += 1
+    return blocks
+
+
+def binary_part(rep, ctx):
+    """the real binary on small trees in which whole categories have no finding: every category block that is present
+    must list at least one entry and announce exactly the number of entries it lists"""
+    import os, shutil, subprocess
+    binary = vlib.build_solstat_bin()
+    base = os.path.join(vlib.CACHE, 'c12-bin-%d' % os.getpid())
+    shutil.rmtree(base, ignore_errors=True)
+    bad = []
+    n = 0
+    for name, files in BIN_TREES.items():
+        root = os.path.join(base, name)
+        for rel, src in files.items():
+            p = os.path.join(root, 'contracts', rel)
+            os.makedirs(os.path.dirname(p), exist_ok=True)
+            open(p, 'w').write(src)
+        p = subprocess.run([binary, '--path', './contracts'], cwd=root, stdout=subprocess.PIPE, stderr=subprocess.PIPE, timeout=300)
+        n += 1
+        rp = os.path.join(root, 'solstat_report.md')
+        if p.returncode != 0 or not os.path.exists(rp):
+            bad.append((name, files, 'exit %d, no report' % p.returncode, ''))
+            continue
+        text = open(rp, encoding='utf-8', errors='replace').read()
+        for header, total, entries in report_blocks(text):
+            if entries == 0:
+                bad.append((name, files, 'the block %r is present although it lists no finding' % header, text))
+            elif total is not None and total != entries:
+                bad.append((name, files, 'the block %r announces %d but lists %d entries' % (header, total, entries), text))
+    shutil.rmtree(base, ignore_errors=True)
+    rep.coverage['binary_end_to_end'] = {'trees': n, 'inconsistent_reports': len(bad)}
+    for name, files, why, text in bad[:2]:
+        rep.violation('solstat on the tree %r: %s' % (name, why),
+                      {'kind': 'S', 'input': {'tree': files, 'argv': ['--path', './contracts']}, 'report': text[:3000], 'mode': 'binary',
+                       'theorem': 'category_iff / total_matches_entries (composition of analyze_dir and generate_report)'})
+    return bool(bad)
+
+
 def run(rep, ctx):
     cases = build_cases(ctx)
     outs, codes = rc.evaluate(ctx, cases, 'c12')
@@ -46,10 +112,26 @@ def run(rep, ctx):
     def fails_spec(cands, key):
         return [bool(set(k) & key) for k in rc.evaluate(ctx, cands, 'shrink-c12')[1]]
     found = rc.report_failures(rep, ctx, 'C12', cases, outs, codes, S_CODES, fails_spec, theorem_of)
+    found = binary_part(rep, ctx) or found
     common.finish_proof_status(rep, ctx, found)
 
 
 def replay(obj):
+    if obj.get('mode') == 'binary':
+        import os, shutil, subprocess
+        binary = vlib.build_solstat_bin()
+        root = os.path.join(vlib.CACHE, 'c12-replay-%d' % os.getpid())
+        shutil.rmtree(root, ignore_errors=True)
+        for rel, src in obj['input']['tree'].items():
+            p = os.path.join(root, 'contracts', rel)
+            os.makedirs(os.path.dirname(p), exist_ok=True)
+            open(p, 'w').write(src)
+        subprocess.run([binary] + obj['input']['argv'], cwd=root)
+        text = open(os.path.join(root, 'solstat_report.md'), errors='replace').read() if os.path.exists(os.path.join(root, 'solstat_report.md')) else ''
+        shutil.rmtree(root, ignore_errors=True)
+        blocks = report_blocks(text)
+        print('blocks (header, announced total, entries listed):', blocks)
+        return 1 if any(e == 0 or (t is not None and t != e) for h, t, e in blocks) else 0
     ctx, case, out, codes = rc.replay_common('C12', obj, S_CODES)
     if out != 'PANIC':
         lines = out.decode('utf-8', errors='replace').split('\n')
